@@ -600,6 +600,37 @@ def shrink(case, fails):
     return cur
 
 
+def dir_mode_links(chk, stats):
+    """Directory mode over trees in which a directory is reached through a symbolic link that points HIGHER in the tree than the
+    link stands (and one that points to a sibling): depth is a matter of where the ENTRY is, deeper entries first, so every
+    directory and link still exists under the path it was gathered at when its turn comes."""
+    import os
+    layouts = [
+        [("in/a", "d", None), ("in/a/b", "d", None), ("in/top", "d", None), ("in/top/f.txt", "f", "x"), ("in/a/b/link", "l", "../../top")],
+        [("in/a", "d", None), ("in/a/b", "d", None), ("in/a/b/c", "d", None), ("in/z", "d", None), ("in/z/g", "f", "y"),
+         ("in/a/b/c/up", "l", "../../../z"), ("in/a/side", "l", "../z")],
+    ]
+    for spec in layouts:
+        for tpl in ("n%Count()_%Name()", "%Upper{%Name()}x"):
+            with Sandbox("verif-c08-l") as root:
+                cli_driver.build_tree(root, spec)
+                res = cli_driver.run_cli(["-d", "-r", "--", tpl, os.path.join(root, "in")], root, root=root, snapshots=False)
+                left = []
+                for dp, dn, fn in os.walk(os.path.join(root, "in")):
+                    for x in dn + [f for f in fn if os.path.islink(os.path.join(dp, f))]:
+                        full = os.path.join(dp, x)
+                        if os.path.isdir(full) and not (x.startswith("n") and "_" in x or x.endswith("x") and x[:-1].upper() == x[:-1]):
+                            left.append(os.path.relpath(full, root))
+            chk.count(("dir-mode-links", json.dumps(spec), tpl))
+            stats["dir_mode_link_runs"] = stats.get("dir_mode_link_runs", 0) + 1
+            case = {"tree": spec, "argv": ["-d", "-r", tpl, "<root>/in"], "status": res.status, "stderr": res.stderr[-300:]}
+            if res.status != 0:
+                chk.oracle_fail("directory mode, a directory reached through a link that points higher up: exit status %s (%s)" % (
+                    res.status, res.stderr.strip()[-160:]), case)
+            elif left:
+                chk.oracle_fail("directory mode: directories/links left unrenamed with status 0: %r" % (left,), case)
+
+
 def run(chk):
     rng = chk.rng
     n = 2000 if chk.tier == "quick" else 30000
@@ -617,7 +648,9 @@ def run(chk):
         cases += exhaustive_small()
     observations = run_all(cases, common.NPROC)
 
-    stats = {"corpus": n_corpus, "generated": n, "mode": {}, "invert": 0, "with_filter": 0, "recursive": 0,
+    _st0 = {}
+    dir_mode_links(chk, _st0)
+    stats = {"corpus": n_corpus, "generated": n, "dir_mode_link_runs": _st0.get("dir_mode_link_runs", 0), "mode": {}, "invert": 0, "with_filter": 0, "recursive": 0,
              "two_roots": 0, "key_shapes": {}, "cases_with_ties": 0, "sorter_input_sizes": {}, "dir_sort_refused": 0,
              "per_directory_count": 0, "max_inputs": 0, "hidden": 0, "skipped_ambiguous_report": 0}
     sort_cases, sort_meta, depth_cases, depth_meta = [], [], [], []
